@@ -16,4 +16,6 @@ mod dnssec;
 #[cfg(kani)]
 mod symbols;
 #[cfg(kani)]
+mod rdata;
+#[cfg(kani)]
 mod playback_gen;
